@@ -126,6 +126,30 @@ def _eval(c, armed, e, ent, tok, path):
                 raise _Fault("empty")
             return tot
         return meaning(c, armed, w, q, path)
+    if k == "o1" and e[1] == rs.OP_DIVIDE and e[2][0] == "v":
+        # floor of the share: the variable's value for the definition-period-long period around the start of the
+        # requested one, divided by the number of requested units that period is made of
+        _, w, pt, _add = e[2]
+        if w >= len(c.vars) or c.vars[w].entity != ent:
+            raise _Fault("variable")
+        tgt = rs.div_target(c.vars[w], _pt(tok, pt))
+        if tgt is None:
+            raise _Fault("divide")
+        return [x // tgt[1] for x in meaning(c, armed, w, tgt[0], path)]
+    if k == "o1" and e[1] == rs.OP_PARAM and e[2][0] == "v":
+        # the parameter's value at the START of the period: the latest dated value on or before that day
+        import datetime as dt
+        from ..perutil import parse_date
+        _, i, pt, _add = e[2]
+        q = _pt(tok, pt)
+        params = list(getattr(c, "params", None) or [])
+        if i >= len(params) or q.startswith("eternity"):
+            raise _Fault("parameter")
+        day = dt.date(*parse_date(q.split("/")[1])).toordinal()
+        vals = [(st, val) for (st, val) in params[i] if st <= day]
+        if not vals:
+            raise _Fault("parameter not defined yet")
+        return [max(vals)[1]] * n
     if k == "o1":
         _, o, a = e
         inner = 0 if (o == 1 or rs.is_role_op(o)) else (1 if (o == 2 or rs.is_proj_op(o)) else ent)
@@ -172,7 +196,7 @@ def _eval(c, armed, e, ent, tok, path):
         x = _eval(c, armed, a, ent, tok, path)
         y = _eval(c, armed, b, ent, tok, path)
         f = {0: lambda p, q: p + q, 1: lambda p, q: p - q, 2: min, 3: max, 4: lambda p, q: int(p < q), 5: lambda p, q: int(p <= q),
-             6: lambda p, q: int(p == q), 7: lambda p, q: q if p != 0 else 0, 8: lambda p, q: 0 if p != 0 else q}[o]
+             6: lambda p, q: int(p == q), 7: lambda p, q: q if p != 0 else 0, 8: lambda p, q: 0 if p != 0 else q}.get(o, lambda p, q: p)
         return [f(p, q) for p, q in zip(x, y)]
     if k == "f":
         if e[1] in armed:
@@ -193,11 +217,40 @@ def expected_results(c: rs.SysCase) -> list:
             armed.discard(r[1]); out.append("-"); continue
         if r[0] == "badp":
             out.append("ERR"); continue
+        if r[0] in ("del", "set"):
+            out.append("?"); continue
+        if r[0] == "get":
+            # get_array never computes: nothing, or the value a calculation would return
+            try:
+                if r[1] >= len(c.vars):
+                    raise _Fault("unknown")
+                var = c.vars[r[1]]
+                key = "eternity/-1,-1,-1/-1" if var.unit == "eternity" else r[2]
+                m = meaning(c, armed, r[1], r[2] if var.unit == "eternity" else _served(var, r[2]))
+                out.append(("g?", "g:" + ",".join(str(x) for x in m)))
+            except _Fault:
+                out.append("ERR" if r[1] >= len(c.vars) else ("g?", None))
+            except (_Cycle, RecursionError):
+                out.append(("g?", None))
+            continue
         kind, v, tok = r
+        if kind == "tcalc":
+            kind = "calc"
+        if kind == "out":
+            # calculate_output: the request the variable's `calculate_output` attribute names
+            okind = (list(getattr(c, "outputs", None) or []) + [0] * (v + 1))[v]
+            kind = {1: "add", 2: "div"}.get(okind, "calc")
         try:
             if v >= len(c.vars):
                 raise _Fault("unknown")
             var = c.vars[v]
+            if kind == "div":
+                tgt = rs.div_target(var, tok)
+                if tgt is None:
+                    raise _Fault("divide")
+                res = meaning(c, armed, v, tgt[0])
+                out.append("ok:" + ",".join(str(x) for x in res) + f"/{tgt[1]}")
+                continue
             if kind == "calc":
                 res = meaning(c, armed, v, tok)
             else:
@@ -235,9 +288,16 @@ def oracle(case: Case, out: str):
     got = out.split("|")[0].split(";")
     want = expected_results(c)
     for i, (g, w) in enumerate(zip(got, want)):
+        g = g.split("#L:")[0]
         if "#STATE" in g:
             return ("stack-or-invalidated-left", f"request {c.reqs[i]}: evaluation stack or invalidated set not empty after the request")
         if w == "?":
+            continue
+        if isinstance(w, tuple):          # get_array: nothing stored, or the meaning
+            if g != "g:none" and w[1] is not None and g != w[1]:
+                return ("stored-value", f"request #{i} {c.reqs[i]}: get_array returned {g}, the rule system's meaning is {w[1]}")
+            if g != "g:none" and w[1] is None and not g.startswith("g:"):
+                return ("stored-value", f"request #{i} {c.reqs[i]}: get_array returned {g}")
             continue
         if g != w:
             kind = "cycle-not-refused" if w == "CYCLE" else ("error-expected" if w == "ERR" else "value")
@@ -250,14 +310,23 @@ def nontrivial(case: Case, out: str) -> bool:
 
 
 def generate(rng: random.Random, tier: str):
-    n = 30000 if tier == "quick" else 300000
+    n = 21000 if tier == "quick" else 240000
     out = []
     for i in range(n):
         kind = "cycle" if rng.random() < 0.15 else "ranked"
-        c = rs.gen_case(rng, kind=kind, msl=rng.choice([1, 1, 2, 3]), bad_rate=0.03 if rng.random() < 0.3 else 0.0)
+        # half of the systems use the extended language (DIVIDE reads, parameters) and the other entry points
+        # (calculate_divide, unknown variables, get_array, delete_arrays of computed values) between the requests
+        ext = {"divide", "params", "requests"} if i % 2 else None
+        c = rs.gen_case(rng, kind=kind, msl=rng.choice([1, 1, 2, 3]), bad_rate=0.03 if rng.random() < 0.3 else 0.0, features=ext)
         if rng.random() < 0.1:      # a request whose period text cannot be parsed, somewhere in the sequence
             c.reqs.insert(rng.randrange(len(c.reqs) + 1), ("badp", rng.randrange(len(c.vars))))
-        out.append(_case(c, (kind, f"vars={len(c.vars)}")))
+        if ext and rng.random() < 0.5:
+            # the same request again later in the sequence (served from the store the second time), and a sum requested
+            # after, and before, one of its own sub-periods
+            again = [r for r in c.reqs if r[0] in ("calc", "add", "div", "out")]
+            for r in rng.sample(again, min(len(again), rng.randint(1, 2))):
+                c.reqs.append(r)
+        out.append(_case(c, (kind, f"vars={len(c.vars)}") + (("ext",) if ext else ())))
     return out
 
 
@@ -276,6 +345,17 @@ def corpus():
                    [("calc", 1, M[0]), ("calc", 1, M[1]), ("calc", 1, M[2]), ("calc", 2, "year/2018,1,1/1"), ("calc", 3, M[1]), ("calc", 4, M[1]),
                     ("calc", 0, "year/2018,1,1/1"), ("add", 1, "year/2018,1,1/1")])
     out.append(_case(c, ("corpus",)))
+    # DIVIDE (formula and request, valid and refused), parameters (dated, not yet defined), get_array, delete_arrays
+    y0 = rs.Var(vtype="float", unit="year", dflt=4)
+    m1 = rs.Var(vtype="int", unit="month", dflt=0, formulas=[(1, ("o2", 0, ("o1", rs.OP_DIVIDE, ("v", 0, "same", False)), ("o1", rs.OP_PARAM, ("v", 0, "same", False))))])
+    d2 = rs.Var(vtype="int", unit="day", dflt=0, formulas=[(1, ("o2", 0, ("o1", rs.OP_DIVIDE, ("v", 1, "same", False)), ("o1", rs.OP_DIVIDE, ("v", 0, "first_month", False))))])
+    m3 = rs.Var(vtype="float", unit="month", dflt=1, formulas=[(1, ("o1", rs.OP_PARAM, ("v", 1, "last_year", False)))])
+    c = rs.SysCase(2, 1, [0, 0], 1, [y0, m1, d2, m3], [(0, "year/2018,1,1/1", [25, -25])],
+                   [("calc", 1, M[3]), ("get", 1, M[3]), ("get", 1, M[2]), ("calc", 2, "day/2018,1,31/1"), ("div", 0, M[3]), ("div", 0, "day/2018,2,1/1"),
+                    ("div", 1, "year/2018,1,1/1"), ("div", 1, "day/2018,2,1/1"), ("calc", 3, M[1]), ("calc", 3, M[0]), ("del", 1, "year/2018,1,1/1"),
+                    ("get", 1, M[3]), ("calc", 1, M[3]), ("calc", 7, M[1]), ("div", 9, M[1]), ("get", 9, M[1]), ("calc", 1, M[0])],
+                   params=[[(dt.date(2017, 1, 1).toordinal(), 3), (dt.date(2018, 2, 1).toordinal(), 5)], [(dt.date(2017, 6, 1).toordinal(), 2)]])
+    out.append(_case(c, ("corpus", "ext")))
     return out
 
 
@@ -290,6 +370,11 @@ PROP = Prop(
           "period transforms (same, this_year, first_month, last_month, last_year, offsets) and the ADD option; DAG by construction plus a 15% "
           "stream with one injected true cycle and a 1% stream of invalid-period / unknown-variable reads; populations of 1-6 persons in 1-3 "
           "households; inputs on ~25% of the (variable, period) pool; 3-8 top-level requests (calculate / calculate_add, 8% wrong-unit or size-2). "
+          "Half of the systems use the extended language: DIVIDE reads floor(population(w, q, options=[DIVIDE])) for every valid (definition period, "
+          "caller period, transform) combination and some refused ones, dated parameters parameters(q).p / .g.p (1-4 parameters, 1-3 dated values, "
+          "instants given as Period / Instant / text, attribute or item access, values not yet defined), and between the requests: calculate_divide "
+          "(compared exactly as numerators over the denominator), requests for unknown variables through every entry point, get_array (Period / text / int), "
+          "delete_arrays of computed values. "
           "The Python side compiles each expression to closures over the real population API. Non-trivial = at least one request returned a value; "
           "distinct = distinct protocol lines."),
     assumptions=[
@@ -297,5 +382,7 @@ PROP = Prop(
         "values are small integers, exactly representable in float32/int32 (numeric policy, DESIGN section 4)",
         "numpy primitives used by the group operations (bincount, fancy indexing) are modelled",
         "eternal variables carry at most one undated formula and read only eternal variables (an eternal variable whose formula depends on the request period has no period-independent meaning)",
+        "DIVIDE inside formulas is consumed through floor (values stay integers); for |x| < 2^22 and denominators <= 366 the float32 quotient never crosses an integer, so floor is exact; a top-level calculate_divide is compared exactly: every element must be the quotient numpy computes for an integer numerator",
+        "week and weekday units are not in this generator (C03 covers DIVIDE over them at request level)",
     ],
 )
